@@ -77,7 +77,7 @@ BF(name, attr, kind, cls, nullable, path) ==
   [name |-> name, attr |-> attr, kind |-> kind, cls |-> cls, tfty |-> TfTyOf(cls), zero |-> HasZeroLit(cls),
    nullable |-> nullable, oneof |-> "", embed |-> "", placeholder |-> FALSE, path |-> path, msg |-> NoMsg,
    required |-> FALSE, computed |-> FALSE, sensitive |-> FALSE, validators |-> <<>>, planmods |-> <<>>,
-   desc |-> <<>>, suffix |-> "", gopath |-> <<name>>, proto |-> name, fixeddesc |-> "", pzero |-> Nil]
+   desc |-> <<>>, suffix |-> "", gopath |-> <<name>>, proto |-> name, fixeddesc |-> "", pzero |-> Nil, pmixed |-> FALSE]
 
 PlaceholderDesc == "Automatically generated field preventing empty message errors"
 
@@ -185,7 +185,8 @@ BuildField(d, cfg, m, mpath, i, fuel) ==
             IN Ok([j \in DOMAIN sub.m.fields |->
                     [sub.m.fields[j] EXCEPT !.gopath = <<par>> \o @,
                                             !.embed = IF f.nullable THEN par ELSE @,
-                                            !.pzero = IF f.nullable THEN ZeroStruct(d, f.ref) ELSE @]])
+                                            !.pzero = IF f.nullable THEN ZeroStruct(d, f.ref) ELSE @,
+                                            !.pmixed = IF f.nullable THEN \E k \in DOMAIN sub.m.fields : sub.m.fields[k].kind # "prim" ELSE @]])
          ELSE IF f.card = "rep" THEN Ok(<<custom([base EXCEPT !.kind = "objlist", !.msg = <<sub.m>>])>>)
          ELSE Ok(<<custom([base EXCEPT !.kind = "obj", !.msg = <<sub.m>>])>>)
   ELSE IF f.card = "rep" THEN Ok(<<custom([base EXCEPT !.kind = "primlist"])>>)
